@@ -736,6 +736,7 @@ func main() {
 		var sites []string   // "Func:AddError" multiset
 		var calls []string   // "XClaims.Validate -> ClaimsData.Validate [unconditional|conditional]"
 		var timeChk []string // AddTimeCheck sites
+		var twtc []string    // validateWithTimeChecks call sites with their literal flag
 		eachFunc(pi.p, func(fd *ast.FuncDecl, _ *ast.File) {
 			key := funcKey(fd)
 			var walk func(n ast.Node, cond bool)
@@ -764,6 +765,14 @@ func main() {
 								sites = append(sites, key+":"+se.Sel.Name)
 							case "AddTimeCheck":
 								timeChk = append(timeChk, key)
+							case "validateWithTimeChecks":
+								arg := "?"
+								if len(x.Args) == 2 {
+									if id, ok := x.Args[1].(*ast.Ident); ok {
+										arg = id.Name
+									}
+								}
+								twtc = append(twtc, key+":"+arg)
 							case "Validate":
 								if sel := pi.p.TypesInfo.Selections[se]; sel != nil {
 									if fn, ok := sel.Obj().(*types.Func); ok {
@@ -808,6 +817,8 @@ func main() {
 		w("issueSites", sites)
 		w("claimsDataValidateCalls", calls)
 		w("timeCheckSites", timeChk)
+		sort.Strings(twtc)
+		w("withTimeChecksCalls", twtc)
 		facts["validation"] = map[string]interface{}{"sites": sites, "calls": calls, "timecheck": timeChk}
 	}
 	vb.WriteString("\nend Jwt.Gen\n")
